@@ -141,7 +141,8 @@ def replay(ctx, payload):
     s = sexp.parse(case)
     n = int(s[3])
     script = [str(x) for x in s[4][1:]]
-    c = mk("replay", n, int((payload.get("detail") or {}).get("delay_us", 1000)), script)
+    gb = int(s[5][1]) if len(s) > 5 else int((payload.get("detail") or {}).get("getbody_fails_at", 0) or 0)
+    c = mk("replay", n, int((payload.get("detail") or {}).get("delay_us", 1000)), script, gb)
     impl, model = run_cases(ctx, [c])
     print("impl :", impl.get("replay"))
     print("model:", model["replay"]["model"])
